@@ -1,21 +1,24 @@
 #!/bin/bash
-# eval_refactors.sh [tier] : applies each behaviour-preserving refactoring (/verif/refactors/r*.diff) to /repo,
-# runs ALL 20 checks, undoes it. A refactoring must not raise an alarm; prints one line per (refactor, failing check).
-tier=${1:-quick}
+# eval_refactors.sh [tier] [ids...] : applies each behaviour-preserving refactoring (/verif/refactors/r*.diff) to a
+# scratch worktree of /repo (VERIF_REPO, so /repo itself stays untouched), runs ALL 20 checks, undoes it. A refactoring
+# must not raise an alarm; prints one line per (refactor, failing check) and one summary line per refactoring.
+tier=${1:-quick}; shift
+ids="$@"; [ -z "$ids" ] && ids=$(ls /verif/refactors/r*.diff | xargs -n1 basename | sed 's/\.diff$//' | sort -V)
+wt=/tmp/evalrf.$$
+git -C /repo worktree add -q --detach $wt HEAD || exit 2
 cd /verif
-# evidence files must describe runs against the unchanged tree: keep them aside while a change is applied
-rm -rf /tmp/evidence.keep; cp -r /verif/evidence /tmp/evidence.keep
-trap 'rm -rf /verif/evidence; cp -r /tmp/evidence.keep /verif/evidence; rm -rf /tmp/evidence.keep' EXIT
-for f in /verif/refactors/r*.diff; do
-  id=$(basename $f .diff)
-  if ! git -C /repo apply --check $f 2>/dev/null; then echo "$id: patch does not apply"; continue; fi
-  git -C /repo apply $f
+rm -rf /tmp/evidence.keep.$$; cp -r /verif/evidence /tmp/evidence.keep.$$
+trap 'rm -rf /verif/evidence; cp -r /tmp/evidence.keep.$$ /verif/evidence; rm -rf /tmp/evidence.keep.$$; git -C /repo worktree remove --force '$wt EXIT
+for id in $ids; do
+  f=/verif/refactors/$id.diff
+  if ! git -C $wt apply --check $f 2>/dev/null; then echo "$id: patch does not apply"; continue; fi
+  git -C $wt apply $f
   bad=0
   for n in 01 02 03 04 05 06 07 08 09 10 11 12 13 14 15 16 17 18 19 20; do
-    out=$(./check C$n $tier 2>&1); rc=$?
+    out=$(VERIF_REPO=$wt ./check C$n $tier 2>&1); rc=$?
     if [ $rc -ne 0 ]; then bad=$((bad+1)); echo "$id C$n rc=$rc :: $(echo "$out" | grep -m1 '^VIOLATION') :: $(echo "$out" | tail -1)"; fi
   done
-  git -C /repo checkout -- .
-  git -C /repo clean -fdq
+  git -C $wt checkout -- .
+  git -C $wt clean -fdq
   echo "$id: $bad alarms"
 done
